@@ -362,7 +362,18 @@ func (rm *relayManager) handleCreateRelayResponse(v cert.Version, h *HostInfo, f
 	if relay.Type == TerminalType {
 		return
 	}
-	// I'm the middle man. Let the initiator know that the I've established the relay they requested.
+	// I'm the middle man. Only the host this relay leads to can tell me that its end is established. Without this
+	// an authenticated third party that has a relay of its own for the same initiator could name somebody else as
+	// relayTo and complete (or revive) the initiator's relay towards that host.
+	if !slices.Contains(h.vpnAddrs, relayTo) {
+		rm.l.Error("Discarding relay response, relayTo is not an address of the responding host",
+			"relayFrom", relayFrom,
+			"relayTo", relayTo,
+			"vpnAddrs", h.vpnAddrs,
+		)
+		return
+	}
+	// Let the initiator know that the I've established the relay they requested.
 	peerHostInfo := rm.hostmap.QueryVpnAddr(relay.PeerAddr)
 	if peerHostInfo == nil {
 		rm.l.Error("Can't find a HostInfo for peer", "relayTo", relay.PeerAddr)
